@@ -13,6 +13,13 @@ fn main() {
     }
 }
 
+/// Verification hook: lets an external harness (which includes this file as a module) call the
+/// real generator.
+#[cfg(feature = "verif")]
+pub fn verif_generate(f: fn(char) -> bool) -> Vec<(u32, u32)> {
+    generate_char_fn_ranges(f)
+}
+
 fn generate_char_fn_ranges(f: fn(char) -> bool) -> Vec<(u32, u32)> {
     let mut ranges: Vec<(u32, u32)> = vec![];
     let mut current_range_start: Option<u32> = None;
